@@ -157,7 +157,7 @@ func vh_C01_text() {
 	if vTier() == 1 {
 		n = 3
 	}
-	env := NewZlispSandbox()
+	env := vEnvs(1)[0]
 	k := 1 + vChoice("len", n)
 	txt := vString("t", k)
 	vSetStepBudget(300000)
